@@ -76,7 +76,9 @@ class CurveBase(ElementBase):
 
     def get_param_at_length(self, length: float) -> float:
         """Returns parameter at specified length along the curve"""
-        return scipy.optimize.brentq(lambda p: self.get_length(0, p) - length, self.bounds[0], self.bounds[1])
+        return scipy.optimize.brentq(
+            lambda p: self.get_length(self.bounds[0], p) - length, self.bounds[0], self.bounds[1]
+        )
 
     def _diff(self, param: float, order: int, delta: float = TOL) -> NPVectorType:
         params = np.linspace(param - order * delta / 2, param + order * delta / 2, num=order + 1)
